@@ -8,6 +8,9 @@ import tempfile
 
 from . import common
 
+# this check never reads lean/MjProof/Gen: no generated-code lock needed
+USES_GEN = False
+
 META = {
     "technique": "Lean 4 proof (refinement of every operation history to the abstract map Name -> Option Bytes, by induction on the history) + exact differential correspondence with the tree's VFS / FilePath code",
     "text": "Model of FilePath normalisation (AbsPrefix, PathReduce, Combine, StripPath, Lower) and of the VFS mount table with mj_addBufferVFS / mj_addFileVFS / mj_deleteFileVFS (incl. lower-cased fall-back) / mj_containsBufferVFS / mj_containsFileVFS / mju_openResource+read (FindMount: exact, directory-prefix, legacy basename match, default provider over an explicit disk table). Proved for all histories: refinement to the abstract spec modulo the key the API computes; a name is present iff some add for its key returned 0 and no later delete/reset removed it; re-add returns 2 and changes nothing; a read of a present name returns exactly the stored bytes; a delete fails iff neither the normalised name nor its lower-cased basename is present. The model has two marked variant switches (contains lookup raw/normalised, FindMount exact-first/loop-only); the check probes the real code and compares against the matching variant; each theorem carries exactly the switch it needs as a hypothesis (state refinement and presence = added-and-not-deleted-since need none; the contains clauses need the normalising lookup; the read clause needs the exact-first lookup only for the empty path; the full trace refinement needs both); `_partial` theorems and machine-checked counter-witnesses cover the as-found variants.",
